@@ -61,6 +61,18 @@ def core():
     D.append(Def('long_ident', variants=[Var('Ident', [R('[a-zA-Z_][a-zA-Z0-9_]*')]), Var('Eq', [T('==')])], tags=('loop', 'long')))
     D.append(Def('long_float', variants=[Var('Num', [R('[0-9]+')]), Var('Float', [R('[0-9]+\\.[0-9]+')])], tags=('loop', 'long')))
     D.append(Def('long_skip', skips=[R(' +')], variants=[Var('X', [T('x')])], tags=('loop', 'long')))
+    # one- and two-edge states whose edge classes are rendered as compare chains (impl_fork_match): byte pairs 0x20 apart
+    # with and without bit 5 set, ranges with one and two holes, full ranges minus isolated bytes, negated classes
+    D.append(Def('cmp_shapes_b', utf8=False, skips=[R(b'\\\\[^\\n\\r]')], variants=[
+        Var('A', [R(b'a[?_]')]), Var('B', [R(b'b[-M]')]), Var('C', [R(b'c[.N]c')]), Var('D', [R(b'd[:Z]')]), Var('E', [R(b'e[0P]')]),
+        Var('F', [R(b'f[ @]')]), Var('G', [R(b'g[eE]g')]), Var('H', [R(b"h[^'\\\\]'")]), Var('I', [R(b'i[^xy]')]),
+        Var('J', [R(b'j[^x]j')]), Var('K', [R(b'k[a-ce-g]')]), Var('L', [R(b'l[a-ce]l')]), Var('M', [R(b'm[^\\x00]')]),
+        Var('N', [R(b'n[^\\xFF]n')]), Var('O', [R(b'o[\\x00-\\x09\\x0B-\\x7F]')]), Var('P', [R(b'p[^ab]')]), Var('Pa', [T(b'pa')]),
+        Var('Q', [R(b'q[^x]', ignore_case=True)]), Var('Nl', [T(b'\n')])], tags=('bytes', 'quick', 'cmp')))
+    D.append(Def('cmp_shapes_s', variants=[
+        Var('Word', [R('[a-z]+')]), Var('Marked', [R('[a-z]+[?_]')]), Var('Int', [R('[0-9]+')]), Var('Exp', [R('[0-9]+[eE][0-9]+')]),
+        Var('Ch', [R("'[[:ascii:]&&[^'\\\\]]'")]), Var('Run', [R('#[\\x00-\\x09\\x0B-\\x7F]#')]), Var('Z', [R('![:Z]')])],
+        tags=('quick', 'cmp')))
     D.append(Def('look_confirm', variants=[
         Var('Word', [R('[a-z]+(?m:$)')]), Var('Line', [R('[a-z]+\\n')]), Var('Sp', [T(' ')]), Var('If', [R('if(?-u:\\b)')]),
         Var('IfSp', [R('if -')])], tags=('look', 'quick')))
@@ -462,6 +474,10 @@ def subpattern_family():
         Var('J', [R('\u65e5(?&d)x|\u672c(?&word)!')])], tags=('subpat', 'unicode', 'quick')))
     D.append(Def('sub_nonascii_skip', subs=[('sp', '[ \\t]')], skips=[R('\u00b7(?&sp)+\u00b7'), R('(?&sp)')], variants=[
         Var('W', [R('[a-z]+')]), Var('Dot', [T('\u00b7')])], tags=('subpat', 'unicode')))
+    D.append(Def('sub_verbose', subs=[('digits', '(?x: [0-9] [0-9_]* )'), ('unit', 'px|em'), ('length', '(?&digits)(?&unit)'),
+                                       ('v2', '(?x) a b # two letters\n c')], variants=[
+        Var('Length', [R('(?&length)')]), Var('Number', [R('(?&digits)')]), Var('Fraction', [R('\\.(?&digits)')]),
+        Var('V', [R('(?&v2)!')]), Var('Word', [R('[d-z]+')])], tags=('subpat', 'quick')))
     D.append(Def('sub_same_a', subs=[('d', '[0-9]'), ('w', '(?&d)+x')], variants=[Var('N', [R('n(?&d)+')]), Var('W', [R('(?&w)')])],
                  tags=('subpat', 'quick')))
     D.append(Def('sub_same_b', subs=[('d', '[a-f]'), ('w', '(?&d)+x')], variants=[Var('N', [R('n(?&d)+')]), Var('W', [R('(?&w)')])],
